@@ -82,22 +82,21 @@ impl BRC20ProgEngine {
             }
         }
 
-        // Refuse before anything is executed: the genesis block must be the next block, and an earlier
-        // initialise with other genesis parameters must not have deployed the controller already
+        // Refuse before anything is executed: the genesis block must be the next block, and the deployment
+        // must be able to land on the controller address
         if genesis_height != self.get_next_block_height()? {
             return Err("Genesis height is not the next block height".into());
         }
-        if self
-            .get_transaction_receipt_by_inscription_id("BRC20_CONTROLLER_INIT".to_string())?
-            .is_some()
-        {
-            return Err("Already initialised with other genesis parameters".into());
+        // (the controller lands on its address only as the first transaction of its deployer)
+        let deploy_tx = load_brc20_deploy_tx();
+        if self.get_account_nonce(deploy_tx.from)? != 0 {
+            return Err("The BRC20_Controller can only be deployed by an account that has sent no transaction yet".into());
         }
 
         // Deploy BRC20 Controller contract
         let result = self.add_tx_to_block(
             genesis_timestamp,
-            &load_brc20_deploy_tx(),
+            &deploy_tx,
             0,
             genesis_height,
             genesis_hash,
